@@ -1,6 +1,6 @@
 (* PV.C19.Examples — non-vacuity: concrete non-trivial instances of the hypotheses / guards of the theorems. *)
 From Coq Require Import QArith ZArith List Bool PArith Arith Lia Lqa.
-From PV Require Import Base.PyData Base.Expr Base.Interp C19.Model C19.Spec C19.Penalty C19.Summary C19.Categorize C19.Stats C19.Refuted.
+From PV Require Import Base.PyData Base.Expr Base.Interp C19.Model C19.Spec C19.Penalty C19.Summary C19.Categorize C19.Stats C19.Stats2 C19.Refuted.
 Import ListNotations.
 Local Open Scope nat_scope.
 
@@ -189,3 +189,12 @@ Example mfl_counts_example :
   mfl_counts (mkMfl (Some ([AB_FO; AB_ZO; AB_SEQ], AB_SEQ)) (Some ([EL_MIX; EL_FO; EL_MM], EL_MM))
                     (Some (6, true, [0; 1; 3]%Z, true, 3%Z)) (Some (3, 1%Z)) (Some (2, true))) = Ok (8, 5)%Z.
 Proof. vm_compute. reflexivity. Qed.
+
+(* quantiles of 1, 2, 4, 8: median 3, first quartile 1.75, 97.5 % = 7.7; simeval row with an outlier *)
+Example quantile_example :
+  Qeq_bool (match quantile (1 # 2) [8; 1; 4; 2]%Q with Some v => v | None => 0 end) 3 = true /\
+  Qeq_bool (match quantile (1 # 4) [8; 1; 4; 2]%Q with Some v => v | None => 0 end) (7 # 4) = true /\
+  Qeq_bool (match quantile (975 # 1000) [8; 1; 4; 2]%Q with Some v => v | None => 0 end) (77 # 10) = true /\
+  quantile (1 # 2) [] = None /\
+  sm_outlier (simeval_row idq [[(1%positive, Some 1%Q)]; [(1%positive, Some 3%Q)]] [(1%positive, Some 10%Q)] 1%positive) = true.
+Proof. repeat split; vm_compute; reflexivity. Qed.
